@@ -221,10 +221,16 @@ func main() {
 		fatal("no harness for property %s", *prop)
 	}
 	known := map[string]*KnownFinding{}
-	if raw, err := os.ReadFile(filepath.Join(verifDir, "known_findings.json")); err == nil {
+	kfFiles, _ := filepath.Glob(filepath.Join(verifDir, "known_findings.d", "*.json"))
+	kfFiles = append([]string{filepath.Join(verifDir, "known_findings.json")}, kfFiles...)
+	for _, kff := range kfFiles {
+		raw, err := os.ReadFile(kff)
+		if err != nil {
+			continue
+		}
 		var kfs []*KnownFinding
 		if err := json.Unmarshal(raw, &kfs); err != nil {
-			fatal("known_findings.json: %v", err)
+			fatal("%s: %v", kff, err)
 		}
 		for _, k := range kfs {
 			known[k.ID] = k
